@@ -73,7 +73,8 @@ class Verifier(Engine):
             # mechanical slice: verify the suffix of the body that starts at the first top-level statement whose
             # source text starts with `sl`; the free variables of the suffix are the contract's parameters.  What is
             # dropped (the prefix) is reported in the evidence by the contract's note.
-            idx = next((i for i, s_ in enumerate(fn.body) if ast.unparse(s_).startswith(sl)), None)
+            alts = (sl,) if isinstance(sl, str) else tuple(sl)
+            idx = next((i for i, s_ in enumerate(fn.body) if ast.unparse(s_).startswith(alts)), None)
             if idx is None:
                 raise SourceError(f"{c.qualname}: no top-level statement starts with {sl!r}")
             body = fn.body[idx:]
@@ -413,6 +414,12 @@ class Verifier(Engine):
             if isinstance(v, FnV) and v.kind == "nested":
                 return v.node
             raise GenerationError(f"inline target {txt} is not a nested function")
+        if how is None and isinstance(call.func, ast.Name) and txt not in st.env and txt not in self.local_names:
+            sib = self._sibling_function(txt)
+            if sib is not None:
+                return sib
+        if how is None and isinstance(call.func, ast.Name) and isinstance(st.env.get(txt), FnV) and st.env[txt].kind == "sibling":
+            return st.env[txt].node
         if how is None and isinstance(call.func, ast.Attribute) and isinstance(call.func.value, ast.Name) \
                 and call.func.value.id == "self" and isinstance(st.env.get("self"), ObjV) and st.env["self"].path == ("self",) \
                 and self.func.cls is not None and not self.c.nested_in and txt not in self.registry_calls():
